@@ -1,4 +1,75 @@
-(* placeholder until the theorems are in *)
-From Coq Require Import ZArith.
-Theorem C15_placeholder : True. Proof. exact I. Qed.
-Print Assumptions C15_placeholder.
+(* C15 -- a faulty source line is reported as an assembler error naming that file and line.  Statements only.
+   Model: Model/Passes.v (the passes of asm.assemble, after parsing), tied to the code by the pipeline
+   correspondence, which compares error CLASS (AssemblerError vs raw exception) and LOCATION (file, line) of the model
+   with the real assembler on programs with one planted fault (tools/errors_engine.py).
+   PARTIAL: the theorems cover where an AssemblerError points and the fault classes decided inside expression
+   evaluation, the label pass and the data passes; that NO raw exception escapes from the whole pipeline on every
+   parser-shaped input is decided by the falsifier and the correspondence only. *)
+From Coq Require Import ZArith List String.
+From BB Require Import Base.PyBase Gen.Encoders Model.Items Model.Encode Model.Passes
+  Proofs.Layout Proofs.Pipeline Proofs.Errors Proofs.Examples.
+Import ListNotations.
+Open Scope Z_scope.
+
+(* Every AssemblerError raised by any of the 16 passes, with compression off or on, names the line of an item of the
+   program (never an invented line, never the line of another file): each pass reports the line of the item it is
+   processing, pseudo-instruction expansions and compressed forms inherit the line of the item they replace.
+   (Pall: the parse result attached to an `li` item carries the li's own line -- what the real parser produces.) *)
+Theorem C15_located :
+  forall its consts0 labels0 compress l,
+    Pall its -> assemble_items its consts0 labels0 compress = Fail (PAsm l) -> In l (lines its).
+Proof. exact errors_located. Qed.
+Print Assumptions C15_located.
+
+(* undefined label / constant, malformed or non-integer expression: evaluation of a parser-shaped expression (at any
+   position, in ChainMap(constants, labels)) either succeeds or raises the assembler's OWN error -- never a raw
+   exception -- and that error names the line it was given, the line of the item *)
+Theorem C15_expression_faults :
+  forall hi lo l p (get : string -> option Z) e,
+    expr_ok e = true ->
+    (forall x, eeval hi lo l (Some p) (fun k => match get k with Some _ => true | None => false end) get e <> PErr (PRaw x)) /\
+    (forall l', eeval hi lo l (Some p) (fun k => match get k with Some _ => true | None => false end) get e = PErr (PAsm l') -> l' = l).
+Proof. intros. split. intro x. apply eeval_no_raw; auto. intro l'. apply eeval_line. Qed.
+Print Assumptions C15_expression_faults.
+
+(* duplicate label: the label pass fails exactly at a SECOND definition (the line it names is a label item whose name
+   was defined earlier), and a successful run means all label names are distinct *)
+Theorem C15_duplicate_label :
+  forall its pos ls l, resolve_labels_from its pos ls [] = Fail (PAsm l) ->
+    exists pre n post, its = app pre ((l, ILabel n) :: post) /\ In n (gnames pre).
+Proof.
+  intros its pos ls l H. destruct (labels_fail_duplicate _ _ _ _ _ H) as (pre & n & post & E & [[]|Hd]).
+  exists pre, n, post. auto.
+Qed.
+Print Assumptions C15_duplicate_label.
+Theorem C15_labels_unique_on_success : forall its ls ls', resolve_labels its 0 ls = Done ls' -> NoDup (gnames its).
+Proof. exact resolve_labels_nodup. Qed.
+Print Assumptions C15_labels_unique_on_success.
+
+(* operand out of range in data: pack / shorthand / sequence values that do not fit (C10 states exactly which) fail with
+   the assembler's own error -- no raw struct.error / ValueError can leave these passes *)
+Theorem C15_data_faults :
+  (forall its acc x, resolve_packs its acc <> Fail (PRaw x)) /\
+  (forall its acc x, seq_names_ok its -> resolve_sequences its acc <> Fail (PRaw x)).
+Proof. split. exact packs_no_raw. exact sequences_no_raw. Qed.
+Print Assumptions C15_data_faults.
+
+(* operand out of range / unknown register in an instruction: a ValueError of the generated encoder (C06: raised exactly
+   for operands outside the documented sets) becomes the assembler's error at the instruction's line *)
+Theorem C15_encoder_faults :
+  forall l cls name fs c,
+    (if is_atomic_cls cls
+     then match split_last2 (args_of fs) with
+          | Some (pos, aq, rl) => encode name pos [("aq", aq); ("rl", rl)]%string
+          | None => Err ValueError
+          end
+     else encode name (args_of fs) []) = Err ValueError ->
+    encode_item l cls name fs c = Fail (PAsm l).
+Proof. exact encode_item_value_error. Qed.
+Print Assumptions C15_encoder_faults.
+
+(* non-vacuity: a program with an undefined label fails with the assembler's error at the referring line *)
+Example C15_example :
+  let its := [(exL 1, ILabel "a"); (exL 2, IPseudo "j" ["nowhere"] (PErr (PRaw OtherExn)))]%string in
+  Pall its /\ assemble_items its [] [] true = Fail (PAsm (exL 2)) /\ In (exL 2) (lines its).
+Proof. split. repeat constructor. split. vm_compute. reflexivity. right; left; reflexivity. Qed.
